@@ -1,1 +1,1 @@
-// harnesses for src/yield_now (child module, cfg(kani) only)
+// (scratch experiments removed)
